@@ -85,7 +85,11 @@ def run_function_case(task):
             if ob.status != 'unsat':
                 if ob.model is not None:
                     r['model'] = str(ob.model)[:4000]
-                    r['model_values'] = model_values(E, ob)
+                    from .replay import model_args
+                    ma = model_args(E, ob.model)
+                    if ma is not None:
+                        r['replay_args'] = ma
+                        r['replay_case'] = exportable(c, case)
                 # second back end on anything z3 did not discharge
                 try:
                     smt2 = smt2_of(ob)
@@ -124,3 +128,49 @@ def model_values(E, ob):
     except Exception:
         pass
     return out
+
+
+def exportable(c, case):
+    """the string clauses of a contract case (what the concrete evaluator on the rtc side can read)"""
+    def strs(xs):
+        return [x for x in xs if isinstance(x, str)]
+    return {'base': {'requires': strs(c.get('requires', [])), 'ensures': strs(c.get('ensures', [])),
+                     'raises': {k: v for k, v in (c.get('raises') or {}).items() if isinstance(v, str)}},
+            'case': {'label': case.get('label', ''), 'requires': strs(case.get('requires', [])),
+                     'ensures': strs(case.get('ensures', [])),
+                     'raises': {k: v for k, v in (case.get('raises') or {}).items() if isinstance(v, str)}}}
+
+
+def export_all(path):
+    """dump the string clauses and parameter types of every contract (read by the armed-contract job on the rtc side)"""
+    import json
+    C = load_contracts()
+
+    def strs(xs):
+        return [x for x in xs if isinstance(x, str)]
+
+    def js(t):
+        if isinstance(t, tuple):
+            return [js(x) for x in t]
+        if isinstance(t, dict):
+            return {k: js(v) for k, v in t.items()}
+        if isinstance(t, list):
+            return [js(x) for x in t]
+        return t
+    out = {}
+    for q, c in C.items():
+        cases = []
+        for case in (c.get('cases') or [{}]):
+            reqs = list(case.get('requires', []))
+            for key, rq in (c.get('case_requires') or {}).items():
+                if key in (case.get('label') or ''):
+                    reqs += list(rq)
+            cases.append({'label': case.get('label', ''), 'params': js(case.get('params', {})), 'requires': strs(reqs),
+                          'ensures': strs(case.get('ensures', [])),
+                          'raises': {k: v for k, v in (case.get('raises') or {}).items() if isinstance(v, str)}})
+        out[q] = {'params': js(c.get('params', {})), 'cases': cases,
+                  'base': {'requires': strs(c.get('requires', [])), 'ensures': strs(c.get('ensures', [])),
+                           'raises': {k: v for k, v in (c.get('raises') or {}).items() if isinstance(v, str)}}}
+    with open(path, 'w') as f:
+        json.dump(out, f)
+    return len(out)
